@@ -48,6 +48,8 @@ func checkC20(w *World, r *Report, tier string) propMeta {
 	c20R5(w, r)
 	c20R6(w, r)
 	c20R7(w, r)
+	c20R8(w, r, "C20.R8")
+	c20R9(w, r)
 	return propMeta{
 		explanation: "The cursor's terminal state as path, lock and ownership rules: (R1) Results.err is written only under mu, on the not-yet-finalized edge, together with finalized = true; (R2) every `return false` of Next follows finish (directly or through terminate) or the iterDone test, and finish sets iterDone; (R3) Close runs its body under closeOnce, cancels, waits for done and returns nil; terminate cancels and waits for done before reading the recorded errors and wraps the caller's context error with %w when it is set; (R4) the guarded-by table of Results; (R5) no worker can wedge: every channel operation in the goroutines Query starts is a select with the query context's Done() case or a default (one named exception: querySlot.release takes back the token the slot itself sent); (R6) teardown order fileWorkers.Wait → close(blockJobs) → blockWorkers.Wait → handles.closeAll → markWorkersDone.",
 		notDecided:  "Interleavings of Next/Close themselves; MetaStore iterators that ignore ctx (a contract of the store).",
@@ -211,6 +213,9 @@ func c20R3(w *World, r *Report) {
 				r.check(fl.Before(in).Must("cancelled"), rule, name+":cancel-before-wait", w.instrPos(in), "pipeline cancelled before waiting for it", name+" waits for the pipeline without cancelling it first: Close/terminate can block until the query completes on its own")
 			}
 		})
+		for i, ret := range fl.Returns() {
+			r.check(fl.Before(ret).Must("waited"), rule, fmt.Sprintf("%s:waits-for-pipeline#%d", name, i), w.instrPos(ret), "returns only after the pipeline has exited", name+" can return without having waited for the query pipeline to exit: Next returns false (or Close returns) while workers still hold handles and semaphore slots and the MetaStore iterator is still running")
+		}
 		for _, in := range w.callSitesIn(fn, "Results.joinedErrs") {
 			r.check(fl.Before(in).Must("waited"), rule, name+":errors-read-after-wait", w.instrPos(in), "errors read after the workers stopped", name+" reads the recorded errors before the workers have stopped: late failures are lost from Err")
 		}
@@ -367,6 +372,7 @@ func checkC21(w *World, r *Report, tier string) propMeta {
 	c21R4(w, r)
 	c21R5(w, r)
 	c21R6(w, r)
+	c20R3(w, r) // Close and terminate return only after the pipeline (workers, iterator, handles) has exited
 	return propMeta{
 		explanation: "Resource release as counting, pending/kill and ownership rules: (R1) after every successful handles.acquire exactly one of put/discard happens on every path (through the deferred health-flag closure in evaluateBlockFilters, directly in processDataBlock), and every read handle opened in the package (DataStore.OpenFile, os.Open) is closed on all paths or returned to a caller that is itself checked; (R2) every handles.retain is matched by a release or by a successful hand-off of the job, whose receiver defers the release before anything else; (R3) every goroutine the query starts is preceded by Add(1) on the WaitGroup whose Done it defers first (the teardown goroutine is the named exception: its completion is markWorkersDone); (R4) every worker defers slot.release, held becomes true only on the semaphore-send edge and false only after taking the token back; (R5) the pool's fields are accessed under mu (named exception: closeAll walks the detached map) and no store I/O (OpenFile, Close) runs with mu possibly held.",
 		notDecided:  "That a DataStore's Close really releases the handle; exclusivity of a handle between put and the next acquire under all schedules (rests on R5's lock discipline).",
@@ -902,6 +908,7 @@ func checkC23(w *World, r *Report, tier string) propMeta {
 	r.rule(r1, "one stats entry per scan job: processDataBlock registers its recordBlockStats defer unconditionally at entry and records nowhere else", 2)
 	r.rule(r2, "filter pass accounts for each block exactly once per iteration (survivor, skipped entry, or unread entry) and every early exit is a cancellation or records all remaining blocks", 12)
 	r.rule(r3, "skipped/unread entries leave RowsProcessed/BytesProcessed zero; scan counters advance once per scanned row; Stats counts each entry as skipped xor processed and sums rows/bytes over all entries", 6)
+	c20R8(w, r, "C23.R4")
 	c02R3(w, r) // RowsMatched advances by len(batch) exactly once per delivered batch
 	if fn := fnOrUndecided(w, r, r1, "BloomSearchEngine.processDataBlock"); fn != nil {
 		deferred := false
@@ -1868,5 +1875,111 @@ func c21R6(w *World, r *Report) {
 			}
 			r.check(okc, rule, "closeAll:every-entry-closed", w.pos(fn.Pos()), "every detached entry's idle set is closed", "closeAll can leave an entry's idle handles open (or closes them before detaching the map)")
 		}
+	}
+}
+
+// c20R8: the recording functions are lossless — whatever a worker reports
+// reaches the list Err/Stats are computed from, whatever its value.
+func c20R8(w *World, r *Report, rule string) {
+	r.rule(rule, "lossless recording: recordQueryError appends its argument to Results.errs on every path, recordBlockError forwards its argument to it on every path, recordBlockStats appends its argument to Results.blockStats on every path, and joinedErrs joins the whole list — no failure is filtered by value", 4)
+	appendsParam := func(fn *ssa.Function, field string) {
+		var p *ssa.Parameter
+		if len(fn.Params) >= 2 {
+			p = fn.Params[1]
+		}
+		fl := newFlow(w, fn, &Classifier{Instr: func(in ssa.Instruction) *Event {
+			st, ok := in.(*ssa.Store)
+			if !ok {
+				return nil
+			}
+			if owner, f, _, ok := w.structFieldOf(st.Addr); ok && owner == "Results" && f == field {
+				if call, ok := st.Val.(*ssa.Call); ok {
+					if base, elems, ok := appendedElems(call); ok && strings.HasSuffix(w.path(base), "."+field) {
+						for _, e := range elems {
+							if e == ssa.Value(p) {
+								return ev("appended")
+							}
+						}
+					}
+				}
+			}
+			return nil
+		}})
+		n := 0
+		for i, ret := range fl.Returns() {
+			n++
+			r.check(p != nil && fl.Before(ret).Must("appended"), rule, fmt.Sprintf("%s:return#%d", baseName(w.name(fn)), i), w.instrPos(ret), "argument appended to Results."+field, baseName(w.name(fn))+" can return without having appended its argument to Results."+field+": a reported failure (or a block's statistics) is silently dropped and the cursor ends as if nothing happened")
+		}
+		if n == 0 {
+			r.undecided(rule, baseName(w.name(fn))+":returns", w.pos(fn.Pos()), "no return found")
+		}
+	}
+	if fn := fnOrUndecided(w, r, rule, "Results.recordQueryError"); fn != nil {
+		appendsParam(fn, "errs")
+	}
+	if fn := fnOrUndecided(w, r, rule, "Results.recordBlockStats"); fn != nil {
+		appendsParam(fn, "blockStats")
+	}
+	if fn := fnOrUndecided(w, r, rule, "Results.recordBlockError"); fn != nil {
+		var p *ssa.Parameter
+		if len(fn.Params) >= 2 {
+			p = fn.Params[1]
+		}
+		fl := newFlow(w, fn, &Classifier{Call: func(site ssa.Instruction, c *ssa.CallCommon) *Event {
+			if _, isCall := site.(*ssa.Call); isCall && w.isCallTo(c, "Results.recordQueryError") && len(c.Args) == 2 && c.Args[1] == ssa.Value(p) {
+				return ev("forwarded")
+			}
+			return nil
+		}})
+		for i, ret := range fl.Returns() {
+			r.check(p != nil && fl.Before(ret).Must("forwarded"), rule, fmt.Sprintf("recordBlockError:return#%d", i), w.instrPos(ret), "argument forwarded to recordQueryError", "recordBlockError can return without recording the failure it was given (filtered by its value): a store failure is dropped, the block's rows are silently missing and Err is nil")
+		}
+	}
+	if fn := fnOrUndecided(w, r, rule, "Results.joinedErrs"); fn != nil {
+		okc := false
+		for _, ret := range newFlow(w, fn, &Classifier{}).Returns() {
+			for _, v := range retVals(w, ret, 0) {
+				if c, ok := v.(*ssa.Call); ok && w.calleeName(&c.Call) == "errors.Join" && len(c.Call.Args) == 1 && strings.HasSuffix(w.path(c.Call.Args[0]), ".errs") {
+					okc = true
+				}
+			}
+		}
+		r.check(okc, rule, "joinedErrs:whole-list", w.pos(fn.Pos()), "errors.Join over all recorded errors", "joinedErrs does not join the whole list of recorded errors: some recorded failure never reaches Err")
+	}
+}
+
+// c20R9: who may cancel the cursor's context.
+func c20R9(w *World, r *Report) {
+	const rule = "C20.R9"
+	r.rule(rule, "only the cursor cancels itself: Results.cancel is written only by newResults (the CancelFunc of context.WithCancel over the caller's context) and read only by Results.Close, Results.terminate and Results.finish; Results.ctx is written only there", 4)
+	allowedRead := map[string]bool{"Results.Close": true, "Results.terminate": true, "Results.finish": true, "Results.Close$1": true}
+	n := 0
+	for _, fa := range w.fieldAccesses("Results") {
+		if fa.Field != "cancel" && fa.Field != "ctx" {
+			continue
+		}
+		host := baseName(w.name(fa.Fn))
+		if fa.Write {
+			n++
+			r.check(host == "newResults", rule, "write:"+fa.Field+"@"+host, w.instrPos(fa.Instr), "set once by the constructor", "Results."+fa.Field+" is overwritten in "+host+": the cursor's context is no longer the one Close cancels and workers observe")
+			continue
+		}
+		if fa.Field == "cancel" {
+			n++
+			r.check(allowedRead[host], rule, "read:cancel@"+host, w.instrPos(fa.Instr), "cancelled by the cursor's own terminal-state logic", host+" takes the cursor's CancelFunc: something other than Close, the terminal-state logic or the caller's context can now end the query — terminate reads such a cancellation as a deliberate Close, so the cursor ends early with a nil Err and rows missing")
+		}
+	}
+	if fn := fnOrUndecided(w, r, rule, "newResults"); fn != nil {
+		okc := false
+		for _, in := range w.callSitesIn(fn, "context.WithCancel") {
+			if p, ok := callOf(in).Args[0].(*ssa.Parameter); ok && p.Parent() == fn {
+				okc = true
+			}
+		}
+		n++
+		r.check(okc, rule, "newResults:child-of-caller-ctx", w.pos(fn.Pos()), "context.WithCancel(caller's ctx)", "the cursor's context is not derived from the caller's context alone")
+	}
+	if n < 4 {
+		r.undecided(rule, "anchors", "-", fmt.Sprintf("only %d uses of Results.cancel/ctx found", n))
 	}
 }
